@@ -1,0 +1,31 @@
+//go:build verif
+
+// Contracts for the deductive verifier in /verif (comment-only; compiled only with -tags verif).
+
+package postgresql
+
+// The SQL chain store behind the indirect issuance-chain service (C14): a lookup returns either the
+// scanned ChainValue column of the row selected by the key, or an error and no data (a missing row
+// is sql.ErrNoRows from Scan); an insert reports every failure (duplicates are absorbed by ON CONFLICT DO NOTHING).
+
+//@ func (*IssuanceChainStorage).FindByKey
+//@ props C14
+//@ site QueryRowContext#1 as q
+//@ site Err#1 as re
+//@ site Scan#1 as sc
+//@ requires s != nil && s.db != nil
+//@ ensures [query-failure-is-an-error-without-data] re.res != nil ==> result1 != nil && result0 == nil
+//@ ensures [missing-row-or-scan-failure-is-an-error-without-data] sc.called && sc.res != nil ==> result1 != nil && result0 == nil
+//@ ensures [success-returns-the-scanned-column] result1 == nil ==> re.res == nil && sc.called && sc.res == nil && result0 == after(sc, chain)
+//@ at q assert [selects-the-chain-value-by-the-key-asked-for] q.query == "SELECT c.ChainValue FROM IssuanceChain AS c WHERE c.IdentityHash = $1" && len(q.args) == 1 && typeof(q.args[0]) == []byte && as(q.args[0], []byte) == key
+//@ at sc assert [scans-the-row-of-that-query] sc.r == q.res && len(sc.dest) == 1
+
+//@ func (*IssuanceChainStorage).Add
+//@ props C14
+//@ pure
+//@ site ExecContext#1 as ex
+//@ requires s != nil && s.db != nil
+//@ ensures [insert-success-is-success] ex.res1 == nil ==> result == nil
+//@ ensures [only-a-failed-insert-is-reported-and-with-its-own-error] result != nil ==> ex.res1 != nil && result == ex.res1
+//@ ensures [every-insert-failure-is-reported] result == ex.res1
+//@ at ex assert [inserts-the-chain-under-the-key] ex.query == "INSERT INTO IssuanceChain(IdentityHash, ChainValue) VALUES ($1, $2) ON CONFLICT DO NOTHING" && len(ex.args) == 2 && typeof(ex.args[0]) == []byte && as(ex.args[0], []byte) == key && typeof(ex.args[1]) == []byte && as(ex.args[1], []byte) == chain
